@@ -23,6 +23,7 @@ type Config struct {
 	LoadSlow  int    `json:"load_slow,omitempty"`  // extra yields inside the loader
 	Faults    bool   `json:"faults"`               // false: fault-free stratum
 	NS        bool   `json:"ns,omitempty"`         // compile with CompileWithNS({x: urn:x, y: urn:y}) instead of Compile
+	Pristine  bool   `json:"pristine,omitempty"`   // also compute every reference outcome in a pristine child process
 }
 
 // ExprSpec is one expression of a scenario.
@@ -105,7 +106,7 @@ func genDocs(r *Rng, maxNodes int) []DocSpec {
 }
 
 func baseCfg(r *Rng) Config {
-	c := Config{CacheCap: -1, PoolMode: r.Intn(2), Faults: !r.Chance(1, 4), NS: r.Chance(1, 5)}
+	c := Config{CacheCap: -1, PoolMode: r.Intn(2), Faults: !r.Chance(1, 4), NS: r.Chance(1, 5), Pristine: r.Chance(1, 100)}
 	if r.Chance(1, 3) {
 		c.CacheCap = []int{0, 1, 2, 3, 5}[r.Intn(5)]
 	}
@@ -192,7 +193,7 @@ func GenC04(seed, run uint64, ok CompileOK) *Scenario {
 // GenC12 draws iterator-protocol histories over node-set expressions.
 func GenC12(seed, run uint64, ok CompileOK) *Scenario {
 	r := NewRng(seed, HashString("C12"), run)
-	s := &Scenario{Prop: "C12", Mode: "H", Seed: seed, Run: run, Cfg: Config{CacheCap: -1, PoolMode: r.Intn(2), Faults: true}}
+	s := &Scenario{Prop: "C12", Mode: "H", Seed: seed, Run: run, Cfg: Config{CacheCap: -1, PoolMode: r.Intn(2), Faults: true, Pristine: r.Chance(1, 100)}}
 	s.Docs = genDocs(r, r.Range(6, 40))
 	g := NewGen(r)
 	g.UseDocs(s.Docs)
